@@ -27,7 +27,7 @@ def gen_tree(rng, nmax, base=None, allow_newline=True):
         # never create a file where a directory of the same name is needed (file/dir clash: outside the domain)
         if any(k.startswith(rel + "/") or rel.startswith(k + "/") for k in t):
             continue
-        mt = rng.pick([0, 1, 1_000_000_000, 1_700_000_000, 10_000_000_000, rng.below(2_000_000_000)])
+        mt = rng.pick([0, 1, 1_000_000_000, 1_700_000_000, 10_000_000_000, rng.below(2_000_000_000), -1, -5, -100 - rng.below(10_000)])
         ns = rng.pick([0, 0, 500_000_000, 999_999_999, 1])
         t[rel] = (rng.pick(CONTENT), mt, ns)
     return t
